@@ -385,6 +385,208 @@ Fixpoint cse_subst (same : expr -> bool) (v : expr) (e : expr) : expr :=
   | _ => e
   end.
 
+
+(* ------------------------------------------------------------------------- *)
+(* operator expansions: minor, det, inv (vform.py:1664-1696), inner (1623-1636) *)
+(* ------------------------------------------------------------------------- *)
+
+Definition drop_nth {A : Type} (k : nat) (l : list A) : list A := firstn k l ++ skipn (S k) l.
+
+(* B = [[A[ii,jj] for jj != j] for ii != i], 1665-1667 *)
+Definition mat_minor (A : list (list expr)) (i j : nat) : list (list expr) :=
+  map (drop_nth j) (drop_nth i A).
+
+(* (-1)**k as a ConstExpr *)
+Definition sign_const (k : nat) : expr := Const (if Nat.even k then f1 else fopp f1).
+
+(* det, 1670-1682: Laplace expansion along the first row; the recursion depth is the size *)
+Fixpoint e_det (fuel : nat) (A : list (list expr)) : option expr :=
+  match fuel with
+  | 0 => None
+  | S fuel' =>
+    match A with
+    | [] => Some (Const f1)
+    | [row] => nth_error row 0
+    | row0 :: _ =>
+        match omap (fun j => match nth_error row0 j, e_det fuel' (mat_minor A 0 j) with
+                             | Some a, Some m => Some (Op OMul (sign_const j) (Op OMul a m))
+                             | _, _ => None end)
+                   (seq 0 (List.length A)) with
+        | Some ts => reduce_add ts
+        | None => None
+        end
+    end
+  end.
+
+(* inv, 1684-1696: invdet * cofacs with cofacs[j][i] = (-1)**(i+j) * minor(A, i, j);
+   the scalar is broadcast to a literal matrix (OperExpr, 1144-1145) *)
+Definition e_inv (A : list (list expr)) : option texpr :=
+  let n := List.length A in
+  match n, e_det (S n) A with
+  | 0, _ => None
+  | _, None => None
+  | _, Some d =>
+    let invdet := Op ODiv (Const f1) d in
+    if n =? 1 then Some (TLM 1 1 [invdet])
+    else
+      match omap (fun ji => match e_det n (mat_minor A (snd ji) (fst ji)) with
+                            | Some m => Some (Op OMul (sign_const (snd ji + fst ji)) m)
+                            | None => None end)
+                 (flat_map (fun j => map (fun i => (j, i)) (seq 0 n)) (seq 0 n)) with
+      | Some cof => Some (TOp OMul (TLM n n (repeat invdet (n * n))) (TLM n n cof))
+      | None => None
+      end
+  end.
+
+Definition inv_entry (A : list (list expr)) (a b : nat) : expr :=
+  match e_inv A with
+  | Some t => match tat t [a; b] with Some e => e | None => Const f0 end
+  | None => Const f0
+  end.
+
+(* inner of two vectors given by their entries: reduce(add, x[i]*y[i]) *)
+Definition e_inner (xs ys : list expr) : option expr :=
+  reduce_add (map (fun p => Op OMul (fst p) (snd p)) (combine xs ys)).
+
+(* ------------------------------------------------------------------------- *)
+(* substitute_vec_components / replace_vector_bfuns (vform.py:409-460)          *)
+(* ------------------------------------------------------------------------- *)
+
+(* replace component [keep] of the vector basis function [name] by the scalar basis function,
+   every other component by 0 *)
+Fixpoint subst_bf (name : string) (keep : nat) (e : expr) : expr :=
+  match e with
+  | PD n (Some c) D p =>
+      if String.eqb n name then (if c =? keep then PD n None D p else Const f0) else e
+  | Neg x => Neg (subst_bf name keep x)
+  | Fn f x => Fn f (subst_bf name keep x)
+  | Op o x y => Op o (subst_bf name keep x) (subst_bf name keep y)
+  | _ => e
+  end.
+
+(* entry (i, j) of the component matrix for arity 2 (445-455): first v <- i, then u <- j *)
+Definition subst_vec2 (bu bv : string) (i j : nat) (e : expr) : expr :=
+  subst_bf bu j (subst_bf bv i e).
+
+(* the environment "u = phi e_keep": component keep carries the jets of the scalar function *)
+Definition env_unit (en : env) (name : string) (keep : nat) : env :=
+  mkEnv (fun n c D p => match c with
+                        | Some k => if String.eqb n name
+                                    then (if k =? keep then e_pd en n None D p else f0)
+                                    else e_pd en n c D p
+                        | None => e_pd en n c D p end)
+        (e_vr en) (e_gw en) (e_dx en) (e_ds en) (e_fn en).
+
+(* ------------------------------------------------------------------------- *)
+(* replace_physical_derivs for basis functions (vform.py:554-624)               *)
+(* ------------------------------------------------------------------------- *)
+
+Definition zerosD (d : nat) : list nat := repeat 0 d.
+Definition unitD (d k : nat) : list nat := bump (zerosD d) k 1.
+Definition digit (k : nat) : string := String (Ascii.ascii_of_nat (48 + k)) EmptyString.
+Definition digits (D : list nat) : string := fold_right (fun k s => append (digit k) s) EmptyString D.
+
+(* references to the predefined variable JacInv (make_var_expr: D = 0, parametric = False) *)
+Definition jacinv (d a b : nat) : expr := VR "JacInv"%string [a; b] (zerosD d) false.
+
+(* indices_to_D, 368-373 *)
+Definition indices_to_D (d : nat) (indices : list nat) : list nat :=
+  fold_left (fun D i => bump D i 1) indices (zerosD d).
+
+(* pderiv_as_var, 375-381: name and definition of the variable for a parametric derivative *)
+Definition pdname (name : string) (D : list nat) : string :=
+  append "_d"%string (append name (append "_"%string (digits D))).
+
+(* _geo_hess_trf, 609-624 *)
+Definition ghname (a i j : nat) : string :=
+  append "_geo_hess_trf_"%string (append (digit a) (append "_"%string (append (digit i) (append "_"%string (digit j))))).
+
+Definition geo_hess_trf_def (d a i j : nat) : expr :=
+  Neg (fold_left (fun acc t => Op OAdd acc t)
+        (flat_map (fun m => flat_map (fun e => map (fun u =>
+           Op OMul (Op OMul (Op OMul (VR "geo_a"%string [m] (bump (unitD d e) u 1) true) (jacinv d a m))
+                            (jacinv d e i)) (jacinv d u j))
+           (seq 0 d)) (seq 0 d)) (seq 0 d))
+        (Const f0)).
+
+Inductive rpd_res := RSame | RNew (e : expr) (ds : list def) | RFail.
+
+Definition osome (o : option expr) (ds : list def) : rpd_res :=
+  match o with Some e => RNew e ds | None => RFail end.
+
+Definition rpd_bf (spacetime : bool) (d : nat) (name : string) (comp : option nat) (D : list nat) (phys : bool) : rpd_res :=
+  if sumD D =? 0 then (if phys then RNew (PD name comp D false) [] else RSame)      (* 555-556, 1307-1311 *)
+  else if negb phys then RSame                                                        (* 565-566 *)
+  else if spacetime then                                                              (* 574-586 *)
+    let T := d - 1 in
+    let Dx_ := firstn T D in
+    if sumD Dx_ =? 0 then RNew (VR (pdname name D) [] (zerosD d) false) [(pdname name D, TS (PD name comp D false))]
+    else if sumD Dx_ =? 1 then
+      match D_to_indices Dx_ with
+      | [k] =>
+          let Di i := indices_to_D d (i :: repeat T (nth T D 0)) in
+          osome (e_inner (map (fun i => jacinv d i k) (seq 0 T))
+                         (map (fun i => VR (pdname name (Di i)) [] (zerosD d) false) (seq 0 T)))
+                (map (fun i => (pdname name (Di i), TS (PD name comp (Di i) false))) (seq 0 T))
+      | _ => RFail
+      end
+    else RFail
+  else
+    match D_to_indices D with
+    | [k] =>                                                                          (* 589-592 *)
+        osome (e_inner (map (fun l => jacinv d l k) (seq 0 d))
+                       (map (fun l => PD name comp (unitD d l) false) (seq 0 d))) []
+    | [i; j] =>                                                                       (* 593-605 *)
+        let Hp a b := PD name comp (bump (unitD d a) b 1) false in
+        let y a := reduce_add (map (fun b => Op OMul (Hp a b) (jacinv d b j)) (seq 0 d)) in
+        match omap y (seq 0 d) with
+        | Some ys =>
+            match e_inner (map (fun a => jacinv d a i) (seq 0 d)) ys with
+            | Some H0 =>
+                RNew (fold_left (fun H k => Op OAdd H (Op OMul (PD name comp (unitD d k) false)
+                                                              (VR (ghname k i j) [] (zerosD d) false)))
+                                (seq 0 d) H0)
+                     (map (fun k => (ghname k i j, TS (geo_hess_trf_def d k i j))) (seq 0 d))
+            | None => RFail
+            end
+        | None => RFail
+        end
+    | _ => RFail
+    end.
+
+
+(* ------------------------------------------------------------------------- *)
+(* VForm.transform on a tree (mapexprs, 1432-1457): children first, then the     *)
+(* node function; None = the node function raised                               *)
+(* ------------------------------------------------------------------------- *)
+Fixpoint transform (f : expr -> option expr) (e : expr) : option expr :=
+  match e with
+  | Neg x => match transform f x with Some x' => f (Neg x') | None => None end
+  | Fn g x => match transform f x with Some x' => f (Fn g x') | None => None end
+  | Op o x y =>
+      match transform f x, transform f y with
+      | Some x', Some y' => f (Op o x' y')
+      | _, _ => None
+      end
+  | _ => f e
+  end.
+
+(* the passes of finalize applied one after the other (705-731) *)
+Fixpoint run_passes (fs : list (expr -> option expr)) (e : expr) : option expr :=
+  match fs with
+  | [] => Some e
+  | f :: r => match transform f e with Some e' => run_passes r e' | None => None end
+  end.
+
+(* replace_physical_derivs as a node function (the helper definitions are returned separately
+   by rpd_bf) *)
+Definition rpd_node (spacetime : bool) (d : nat) (e : expr) : option expr :=
+  match e with
+  | PD n c D p => match rpd_bf spacetime d n c D p with
+                  | RSame => Some e | RNew e' _ => Some e' | RFail => None end
+  | _ => Some e
+  end.
+
 (* structural equality of expressions given a decidable equality on constants *)
 Variable feqb : F -> F -> bool.
 
@@ -432,6 +634,7 @@ Arguments MDx {F}. Arguments MDs {F}. Arguments Neg {F}. Arguments Fn {F}. Argum
 Arguments TS {F}. Arguments TLV {F}. Arguments TLM {F}. Arguments TOp {F}. Arguments TCross {F}.
 Arguments TOuter {F}. Arguments TMatVec {F}. Arguments TMatMat {F}.
 Arguments Ok {F}. Arguments Raise {F}. Arguments Unmodelled {F}.
+Arguments RSame {F}. Arguments RNew {F}. Arguments RFail {F}.
 Arguments mkEnv {F}. Arguments e_pd {F}. Arguments e_vr {F}. Arguments e_gw {F}.
 Arguments e_dx {F}. Arguments e_ds {F}. Arguments e_fn {F}.
 
@@ -491,6 +694,11 @@ Module QcInst.
   Definition qeval_defs := eval_defs Qc 0 Qcplus Qcmult Qcminus Qcdiv Qcopp.
   Definition qeval_forest := eval_forest Qc 0 Qcplus Qcmult Qcminus Qcdiv Qcopp.
   Definition qenv_of := env_of Qc 0.
+  Definition qe_det := e_det Qc 1 Qcopp.
+  Definition qe_inv := e_inv Qc 1 Qcopp.
+  Definition qsubst_bf := subst_bf Qc 0.
+  Definition qsubst_vec2 := subst_vec2 Qc 0.
+  Definition qrpd_bf := rpd_bf Qc 0.
   (* the interpretation of builtins used by the correspondence runs:
      abs = rational absolute value, k-th other builtin x -> (x^2 + k)/(k + 2) *)
   Definition qfn_k (k : Z) (x : Qc) : Qc := (x * x + Q2Qc (k # 1)) / Q2Qc ((k + 2) # 1).
